@@ -53,6 +53,16 @@ def make_units(tier, only):
                 u = {'module': m, 'options': opts, 'L': L, 'K': 1 if tier == 'quick' else 2}
                 u.update(dict(max_paths=1500, timeout=25, query_timeout_ms=5000) if tier == 'quick' else dict(max_paths=30000, timeout=400, query_timeout_ms=60000))
                 units.append(u)
+    # aggregating VAT validators: one unit per country prefix (concrete prefix, symbolic rest), as in C09
+    from .c09 import EU_PREFIX, _len_for
+    for wrapper in ('stdnum.eu.vat', 'stdnum.vatin'):
+        if only and wrapper not in only:
+            continue
+        for pre, pkg in sorted(EU_PREFIX.items()):
+            for L in _len_for(intro, 'stdnum.%s.vat' % pkg, tier)[:1 if tier == 'quick' else None]:
+                u = {'module': wrapper, 'options': {}, 'L': L + 2, 'K': 1, 'prefix': pre}
+                u.update(dict(max_paths=600, timeout=15, query_timeout_ms=5000) if tier == 'quick' else dict(max_paths=20000, timeout=300, query_timeout_ms=60000))
+                units.append(u)
     import random
     rnd = random.Random(common.seed() * 104729 + 11)
     for m, info in sorted(intro.items()):
